@@ -76,6 +76,12 @@ def gen_cases(tier, seed):
             for h in itertools.product(range(len(HLETTERS)), repeat=2):
                 for p in probes:
                     yield {'k': 'hist', 'h': list(h) + [p]}
+    # one decorated operation defined on a base class and inherited by subclasses with their own parameters: every order of runs
+    subs = ['S_skip', 'S_rate0', 'S_rate1', 'S_rate0_ignore']
+    for n_runs in (1, 2, 3):
+        for order in itertools.product(range(len(subs)), repeat=n_runs):
+            for forced in (False, True):
+                yield {'k': 'inherit', 'order': [subs[i] for i in order], 'forced': forced}
     n = 400 if tier == 'quick' else 2000
     for s in sorted({0, seed, 1, 110613}):
         for rate in (0.3, 0.5, 0.05):
@@ -87,7 +93,7 @@ def gen_cases(tier, seed):
 
 
 def run_case(case):
-    return {'row': _row, 'hist': _hist, 'seeded': _seeded, 's3': _s3, 's3seeded': _s3seeded}[case['k']](case)
+    return {'row': _row, 'hist': _hist, 'seeded': _seeded, 's3': _s3, 's3seeded': _s3seeded, 'inherit': _inherit}[case['k']](case)
 
 
 def _decide(r, R):
@@ -208,6 +214,31 @@ def _seeded(case):
         viols.append(viol('seeded:content-dependent', 'decision %d changed when only content/outcome of the operations changed' % i, exp[i], c[i]))
     kept = sum(1 for x, k in zip(a, plan) if x == 'save' and k in ('plain', 'raise'))
     return dict(viol=viols, obs=repr((seed, rate, kept)), nontrivial=True, evals=4 * n, transitions=4 * n)
+
+
+SUBPARAMS = {'S_skip': {'skipped': True}, 'S_rate0': {'rate': 0.0}, 'S_rate1': {'rate': 1.0}, 'S_rate0_ignore': {'rate': 0.0, 'ignore': True}}
+
+
+def _inherit(case):
+    env = P.Env(name='Base', params={'rate': 0.5}, draws=[])
+    for n, prm in SUBPARAMS.items():
+        env.add_subclass(n, 'Base', prm)
+    P.RT.reset()
+    viols = []
+    seen = []
+    for pos, cname in enumerate(case['order']):
+        steps = ([{'do': 'force'}] if case['forced'] else []) + [{'fn': 'out_a', 'a': ['x1']}]
+        prog = {'steps': steps, 'cls': cname, 'params': SUBPARAMS[cname]}
+        R = P.ref(prog, draw=0.4)
+        env.script_draws([0.4] * R['draws'])
+        r = P.record(dict(prog), env=env)
+        fin, exp = _decide(r, R)
+        seen.append(fin)
+        if fin != exp:
+            viols.append(viol('inherited-operation:%s:%s->%s' % (cname, '/'.join(exp) or 'nothing', '/'.join(fin) or 'nothing'),
+                              'run %d of %s (an operation inherited from a common base class) after %s; forced=%s' % (pos, cname, case['order'][:pos], case['forced']), exp, fin))
+            break
+    return dict(viol=viols, obs=repr((case['order'], seen)), nontrivial=len(set(case['order'])) > 1, evals=len(case['order']), transitions=len(case['order']))
 
 
 def _mk_s3(calc):
